@@ -43,13 +43,13 @@ Qed.
 Definition QOrd2 (base : list event) (s : state) (a : nid) : Prop :=
   nkind (nd s a) = KBindLhs a ->
   forall evs pre e post n, log s = evs ++ base -> evs = pre ++ e :: post -> ev_node e = Some n ->
-    scope (nd s n) = Some a -> EvNec n ∈ pre \/ EvUnnec n ∈ pre.
+    sub s n a -> EvNec n ∈ pre \/ EvUnnec n ∈ pre.
 
 Lemma QOrd2_of s0 base s a : PInv s -> OD s (Some a) -> LGx s0 base s -> QOrd2 base s a.
 Proof.
   intros P K G Hk evs pre e post n El E Hn Hs.
   destruct (inGraph (nd s n)) eqn:Hg.
-  - left. destruct (QOrd_of s0 base s a K G Hk) as [_ B]. exact (B evs pre e post n El E Hn (sub_here s n a Hs) Hg).
+  - left. destruct (QOrd_of s0 base s a K G Hk) as [_ B]. exact (B evs pre e post n El E Hn Hs Hg).
   - apply (run_then_gone s pre e (post ++ base) n P); [rewrite El, E, <- app_assoc; reflexivity|exact Hn|exact Hg].
 Qed.
 
@@ -57,7 +57,18 @@ Qed.
 Definition LO (s : state) (evs : list event) : Prop :=
   (forall e n, e ∈ evs -> ev_node e = Some n -> has s n) /\
   forall pre x root a mid e post n, evs = pre ++ EvBindFn a x root :: mid ++ e :: post ->
-    ev_node e = Some n -> scope (nd s n) = Some a -> EvNec n ∈ mid \/ EvUnnec n ∈ mid.
+    ev_node e = Some n -> sub s n a -> EvNec n ∈ mid \/ EvUnnec n ∈ mid.
+
+(* the scope chain of an existing node consists of existing nodes: it does not change *)
+Lemma sub_back_has s s' : PInv s -> (forall n, has s n -> has s' n /\ scope (nd s' n) = scope (nd s n)) ->
+  forall n b, sub s' n b -> has s n -> sub s n b.
+Proof.
+  intros P E n b H. induction H as [n b H|n b1 b H _ IH]; intros Hh.
+  - apply sub_here. rewrite <- (proj2 (E n Hh)). exact H.
+  - assert (H0 : scope (nd s n) = Some b1) by (rewrite <- (proj2 (E n Hh)); exact H).
+    apply (sub_up s n b1 b H0). apply IH.
+    destruct (p_scopes _ P n b1 H0) as [[r Hr] _]. exact (bw_has_lhs _ _ _ (p_binds _ P b1 r Hr)).
+Qed.
 
 Definition isBindFn (e : event) : bool := match e with EvBindFn _ _ _ => true | _ => false end.
 
@@ -72,18 +83,18 @@ Proof.
 Qed.
 
 (* the frame every recompute gives: existing nodes keep their scope, nodes persist *)
-Lemma LO_frame s s' evs new :
+Lemma LO_frame s s' evs new : PInv s ->
   (forall n, has s n -> has s' n /\ scope (nd s' n) = scope (nd s n)) ->
   Forall (fun x => isBindFn x = false) new -> (forall e n, e ∈ new -> ev_node e = Some n -> has s' n) ->
   LO s evs -> LO s' (new ++ evs).
 Proof.
-  intros Hfr Hnb Hnew [EH K]. split.
+  intros P Hfr Hnb Hnew [EH K]. split.
   - intros e n He Hn. apply elem_of_app in He as [He|He]; [exact (Hnew e n He Hn)|apply (Hfr n), (EH e n He Hn)].
   - intros pre x root a mid e post n E Hn Hs.
     destruct (split_nobind_l new evs pre (EvBindFn a x root) _ E eq_refl Hnb) as (pre2 & -> & E2).
     assert (Hh : has s n).
     { apply (EH e n); [|exact Hn]. rewrite E2. apply elem_of_app. right. right. apply elem_of_app. right. left. }
-    apply (K pre2 x root a mid e post n E2 Hn). rewrite <- (proj2 (Hfr n Hh)). exact Hs.
+    apply (K pre2 x root a mid e post n E2 Hn). exact (sub_back_has s s' P Hfr n a Hs Hh).
 Qed.
 
 Lemma runs_none_nobind l : Forall (fun ev => ev_runs ev = None) l ->
@@ -144,7 +155,7 @@ Proof.
       + eexists [_]. split; [exact El|]. split; [repeat constructor|].
         intros e n He Hn. apply elem_of_list_singleton in He. subst e. injection Hn as <-. reflexivity. }
   destruct Hnew as (new & El & Hnb & Hof). exists new. split; [exact El|].
-  apply (LO_frame s s' evs new (rns_frame fuel s m s' imm P H) Hnb); [|exact K].
+  apply (LO_frame s s' evs new P (rns_frame fuel s m s' imm P H) Hnb); [|exact K].
   intros e n He Hn. rewrite (Hof e n He Hn). exact Hm'.
 Qed.
 
@@ -173,13 +184,13 @@ Proof.
       injection E2 as <- <- <- E2.
       destruct (split_quiet_l l1 evs mid e post E2 Q1 ltac:(congruence)) as (mid2 & -> & E3).
       assert (Hh : has s n) by (apply (EH e n); [rewrite E3; apply elem_of_app; right; left|exact Hn]).
-      assert (Hs0 : scope (nd s n) = Some a) by (rewrite <- (proj2 (Hfr n Hh)); exact Hs).
+      assert (Hs0 : sub s n a) by exact (sub_back_has s s' P Hfr n a Hs Hh).
       destruct (Q evs mid2 e post n Elg E3 Hn Hs0) as [X|X]; [left|right]; apply elem_of_app; right; exact X.
     + injection E2 as <- E2.
       destruct (split_nobind_l l1 evs pre3 (EvBindFn a' x root) _ E2 eq_refl N1) as (pre4 & -> & E3).
       assert (Hh : has s n).
       { apply (EH e n); [|exact Hn]. rewrite E3. apply elem_of_app. right. right. apply elem_of_app. right. left. }
-      apply (K pre4 x root a' mid e post n E3 Hn). rewrite <- (proj2 (Hfr n Hh)). exact Hs.
+      apply (K pre4 x root a' mid e post n E3 Hn). exact (sub_back_has s s' P Hfr n a' Hs Hh).
 Qed.
 
 (** * 5. The chain, the loop, the pass *)
@@ -230,7 +241,10 @@ Proof.
   pose proof (OD_pop s n w P L Erm K) as K2. fold s2 in K2.
   assert (G2 : LGx s0 base s2).
   { destruct G as (evs & El & G). exists evs. split; [exact El|]. apply (LG_ext s0 s s2 evs); auto. }
-  assert (O2 : LOx base s2) by exact O.
+  assert (O2 : LOx base s2).
+  { destruct O as (evs & El & [EH KK]). exists evs. split; [exact El|]. split; [exact EH|].
+    intros pre x root a mid e post m E Hm Hs. apply (KK pre x root a mid e post m E Hm).
+    apply (sub_ext s s2); [reflexivity|exact Hs]. }
   destruct (chainT fuel s2 n s3 at3 TP2 P2 L2 Hgn E3) as (TP3 & P3 & L3 & Hk3 & _).
   pose proof (chainL fuel s0 base s2 n s3 at3 TP2 P2 L2 Hgn E3 G2) as G3.
   destruct (chainO2 fuel s0 base s2 n s3 at3 TP2 P2 L2 Hgn K2 G2 O2 E3) as [K3 O3].
@@ -241,7 +255,7 @@ Theorem pass_order_log s s' :
   Inv s -> ValInvB s -> Tplain s -> stabilize [] false s = Ok (s', None) ->
   forall evs pre x root a mid e post n, log s' = evs ++ log s ->
     evs = pre ++ EvBindFn a x root :: mid ++ e :: post ->
-    ev_node e = Some n -> scope (nd s' n) = Some a -> EvNec n ∈ mid \/ EvUnnec n ∈ mid.
+    ev_node e = Some n -> sub s' n a -> EvNec n ∈ mid \/ EvUnnec n ∈ mid.
 Proof.
   intros IV V TP H. pose proof (Inv_wfb s IV) as Hwf.
   destruct (wfb_transients _ Hwf) as (Hst & Hsd & Hsr & Hh).
@@ -278,5 +292,5 @@ Proof.
   destruct (split_quiet_r evsL [EvPassStart] _ e post E3 ltac:(constructor; [reflexivity|constructor]) ltac:(congruence))
     as (post2 & -> & E4).
   rewrite <- app_assoc in E4. cbn [app] in E4.
-  apply (KL pre2 x root a mid e post2 n E4 Hne). rewrite <- Hnd. exact Hs.
+  apply (KL pre2 x root a mid e post2 n E4 Hne). apply (sub_ext sL s'); [intros y; rewrite Hnd; reflexivity|exact Hs].
 Qed.
